@@ -684,6 +684,21 @@ func (r *Runner) funcParamCall(st *State, f *Frame, fnv Val, common *ssa.CallCom
 		}
 	}
 	r.nilCheck(st, fnv, "call of nil func "+exprText(f.fn, common.Value), pos)
+	// call-site assertions of the calling function (before NAME [label] expr) for a func-typed value,
+	// NAME being its source text (e.g. the parameter name); arg0, arg1, ... name the arguments
+	if f.spec != nil && r.quiet == 0 {
+		if cs := f.spec.Before[exprText(f.fn, common.Value)]; len(cs) > 0 {
+			cenv := r.loopEnv(st, f)
+			for i := range args {
+				cenv.vars[fmt.Sprintf("arg%d", i)] = args[i]
+			}
+			for _, c := range cs {
+				g := cenv.EvalBool(c.E, st)
+				r.oblige(st, "before", exprText(f.fn, common.Value)+"."+c.Label, g, pos)
+				r.beforeHit[exprText(f.fn, common.Value)+"."+c.Label] = true
+			}
+		}
+	}
 	var rets []Val
 	if res != nil {
 		rt := sig.Results()
